@@ -223,8 +223,12 @@ package keeper
 //@ uses psumExt, psumStep
 //@ modifies Bank, Other, DistrReceived, DistrAllocated
 //@ requires len(previousVotes) <= 4096 && (forall j :: 0 <= j && j < len(previousVotes) ==> 0 <= previousVotes[j].Validator.Power && previousVotes[j].Validator.Power <= 1125899906842624)
+// store invariant: the stored parameters passed validation (SetParams below is the only writer of the record)
+//@ requires oracleParams(Store_oracle).OracleRewardPercentage <= 100
 //@ ensures err == nil ==> (forall d Str :: DistrAllocated[d] - old(DistrAllocated)[d] == DistrReceived[d] - old(DistrReceived)[d])
 //@ assert after oracleRewardInt: oracleRewardInt == ext("DecCoins.TruncateDecimal", ext("DecCoins.MulDecTruncate", totalFee, wrap64(oracleParams(Store_oracle).OracleRewardPercentage) * 10000000000000000))
+// the transfer out of the fee collector never asks for more than the fee collector holds
+//@ assert after oracleRewardInt: forall d Str :: { ext("Coins.AmountOf", oracleRewardInt, d) } ext("Coins.AmountOf", oracleRewardInt, d) * 1000000000000000000 <= ext("DecCoins.AmountOf", totalFee, d)
 //@ assert before communityTax: oracleReward == ext("NewDecCoinsFromCoins", oracleRewardInt)
 //@ assert after communityFund: communityFund == ext("DecCoins.TruncateDecimal", ext("DecCoins.MulDecTruncate", ext("NewDecCoinsFromCoins", oracleRewardInt), communityTax))
 //@ assert after remaining: remaining == ext("DecCoins.Sub", ext("NewDecCoinsFromCoins", oracleRewardInt), ext("NewDecCoinsFromCoins", communityFund)) && oracleReward == remaining
@@ -287,3 +291,9 @@ package keeper
 //@      && x.AnsCount == old(pcount(Store_oracle, types.ReportStoreKey(id))) && x.RequestTime == r.RequestTime
 //@      && x.ResolveTime == ctx.BlockTime().Unix() && x.ResolveStatus == status && x.Result == result)
 //@ ensures forall q Bz :: q != types.ResultStoreKey(id) ==> Store_oracle[q] == old(Store_oracle)[q]
+
+// ---- C02/C14: the only writer of the parameter record stores validated parameters only --------------------------
+//@ func (k Keeper) SetParams
+//@ modifies Store_oracle
+//@ ensures err == nil ==> Store_oracle == store(old(Store_oracle), types.ParamsKeyPrefix, enc(p)) && p.OracleRewardPercentage <= 100
+//@ ensures err != nil ==> Store_oracle == old(Store_oracle)
